@@ -36,7 +36,7 @@ pub fn fld(name: &str, lo: u32, w: u32, ty: FieldTy, access: Access) -> Field {
 }
 
 pub fn lay(bits: u32, fields: Vec<Field>) -> Layout {
-    Layout { name: "S".into(), base_bits: bits, default: None, default_colon: false, debug: false, fields, enums: vec![], inners: vec![], debug_first: false, vis: 0, decoys: 0, derives: 0 }
+    Layout { name: "S".into(), base_bits: bits, default: None, default_colon: false, debug: false, fields, enums: vec![], inners: vec![], debug_first: false, vis: 0, decoys: 0, derives: 0, handwritten: 0 }
 }
 
 pub fn uty(w: u32) -> FieldTy {
@@ -515,7 +515,12 @@ pub fn sys_custom(tier: Tier) -> Vec<Layout> {
             if *w > b {
                 continue;
             }
-            let inner = Layout { name: "I0".into(), ..lay(*w, vec![fld("g0", w - 1, 1, FieldTy::Bool, Access::RW)]) };
+            // every third width: not a bitfield but a hand-written newtype with the two conversions
+            let mut inner = Layout { name: "I0".into(), ..lay(*w, vec![fld("g0", w - 1, 1, FieldTy::Bool, Access::RW)]) };
+            if w % 3 == 0 {
+                inner.handwritten = 1 + ((w / 3) % 2) as u8;
+                inner.fields.clear();
+            }
             let mut fields = Vec::new();
             for (k, lo) in positions(b, *w).iter().enumerate() {
                 fields.push(fld(&format!("n{}", k), *lo, *w, FieldTy::Nested { idx: 0 }, Access::RW));
@@ -706,6 +711,40 @@ pub fn sys_deep_nesting(debug: bool) -> Vec<Layout> {
     out
 }
 
+/// a field `x` next to a field named like a companion of it (`x_raw`, `x_mask`, `try_with_x`, `is_x`, ...): one
+/// declaration per affix, `x` custom-typed (enum / Option<enum> / nested / hand-written type) or plain; the
+/// companion lies over the same bits or elsewhere. All legal: the macro generates `x`, `with_x`, `set_x` only.
+pub fn sys_name_pairs() -> Vec<Layout> {
+    let mut out = Vec::new();
+    let affixed: Vec<(bool, &str)> = NAME_SUFFIXES.iter().map(|a| (true, *a)).chain(NAME_PREFIXES.iter().map(|a| (false, *a))).collect();
+    for (k, (suffix, a)) in affixed.iter().enumerate() {
+        let b = [32u32, 16, 64, 24, 128][k % 5];
+        let name = |base: &str| if *suffix { format!("{}{}", base, a) } else { format!("{}{}", a, base) };
+        let mut l = lay(b, vec![]);
+        l.enums.push(small_enum("E0", 2, k % 2 == 0));
+        let mut inner = lay(4, vec![fld("g0", 0, 1, FieldTy::Bool, Access::RW)]);
+        inner.name = "I0".into();
+        inner.handwritten = (k % 3) as u8;
+        if inner.handwritten != 0 {
+            inner.fields.clear();
+        }
+        l.inners.push(inner);
+        let acc = [Access::RW, Access::RW, Access::R, Access::W][k % 4];
+        l.fields.push(fld("mode", 0, 2, FieldTy::Enum { idx: 0, option: k % 2 == 1 }, Access::RW));
+        l.fields.push(fld(&name("mode"), if k % 2 == 0 { 0 } else { 2 }, 2, uty(2), acc));
+        l.fields.push(fld("sub", 4, 4, FieldTy::Nested { idx: 0 }, Access::RW));
+        l.fields.push(fld(&name("sub"), 4, 4, uty(4), acc));
+        l.fields.push(fld("rx", 8, 1, FieldTy::Bool, if k % 3 == 0 { Access::R } else { Access::RW }));
+        l.fields.push(fld(&name("rx"), 9, 1, FieldTy::Bool, Access::RW));
+        let mut arr = fld("lane", 10, 2, uty(2), Access::RW);
+        arr.array = Some(ArrayDecl { count: 2, stride: None, colon: false });
+        l.fields.push(arr);
+        l.fields.push(fld(&name("lane"), 14, 2, uty(2), acc));
+        out.push(l);
+    }
+    out.into_iter().filter(|l| rules::api_name_collision(l).is_none()).collect()
+}
+
 fn random(p: &Profile, seed: u64, stream: u64, n: usize) -> Vec<Layout> {
     sample_choices(seed, stream, n, 320).iter().map(|w| build_layout(p, w)).collect()
 }
@@ -748,6 +787,7 @@ pub fn corpus(prop: &str, tier: Tier, seed: u64) -> Vec<(usize, Layout)> {
             v.extend(sys_many_fields(Access::RW));
             v.extend(sys_long_lists());
             v.extend(sys_deep_nesting(false));
+            v.extend(sys_name_pairs());
         }
         "C03" => {
             v.extend(sys_arrays(tier));
@@ -792,6 +832,7 @@ pub fn corpus(prop: &str, tier: Tier, seed: u64) -> Vec<(usize, Layout)> {
         "C08" => {
             v.extend(sys_custom(tier));
             v.extend(sys_deep_nesting(false));
+            v.extend(sys_name_pairs());
             for (k, fk) in [4usize, 5, 6].iter().enumerate() {
                 let mut p = prof([1, 1, 0, 0, 4, 4, 3], [4, 2, 2, 1]);
                 p.force_kind = Some(*fk);
@@ -1197,6 +1238,34 @@ pub fn enum_corpus(tier: Tier, seed: u64) -> Vec<(usize, EnumDecl)> {
                     .collect();
                 v.push(EnumDecl { name: "E".into(), bits: n, variants, exhaustive: Exh::Conditional, colon: false, qualified: false, args_swapped: false });
             }
+        }
+    }
+    // conditional enums in which *every* discriminant is declared twice under complementary cfgs (enabled one
+    // first / second / alternating), 17-100 values: wherever generated code splits, sorts or de-duplicates the
+    // arms, some pair sits on the boundary
+    for (n, count) in [(5u32, 17u128), (5, 18), (5, 24), (6, 33), (6, 40), (7, 64), (7, 100), (9, 130)] {
+        for flavour in 0..3u128 {
+            let mut variants = Vec::new();
+            for d in 0..count {
+                let enabled_first = match flavour {
+                    0 => true,
+                    1 => false,
+                    _ => d % 2 == 0,
+                };
+                let on = Variant { name: format!("On{}", d), disc: Disc::Lit { value: d, radix: 10, underscore: false }, cfg: if d % 3 == 0 { Cfg::Always } else { Cfg::None }, style: (d % 4) as u8 };
+                let off = Variant { name: format!("Off{}", d), disc: Disc::Lit { value: d, radix: 16, underscore: false }, cfg: Cfg::Never, style: ((d + 1) % 4) as u8 };
+                if enabled_first {
+                    variants.push(on);
+                    variants.push(off);
+                } else {
+                    variants.push(off);
+                    variants.push(on);
+                }
+            }
+            if flavour == 2 {
+                variants.reverse();
+            }
+            v.push(EnumDecl { name: "E".into(), bits: n, variants, exhaustive: Exh::Conditional, colon: false, qualified: false, args_swapped: flavour == 1 });
         }
     }
     // large variant counts (the random enums stop at 12 variants, the exhaustive ones at 2^8): hundreds of
